@@ -350,23 +350,32 @@ def run(ctx, runner, r):
     ncore = 600 if not ctx.thorough else 12000
     cl = []
     for i in range(ncore):
-        g = G.Gen(r, r.weighted([(1, 3), (2, 5), (3, 1)]), fragment=True)
+        g = G.Gen(r, r.weighted([(1, 3), (2, 5), (3, 1)]), fragment=("narrow" if i % 3 == 0 else True))
         ss = g.gen_stylesheet()
         doc = g.gen_doc()
         cl.append(G.request_line("k%d" % i, ss, doc, verb="core"))
     il, ml, irc, mrc, ierr, merr = runner(cl, "core")
     badc = []
+    ninst = 0
     for i, line in enumerate(cl):
         a = il[i] if i < len(il) else None
         b = ml[i] if i < len(ml) else None
         if a == "big":
             ctx.case(cls="core:oversized(skipped)")
             continue
+        inst_i = b is not None and b.startswith("oki ")
+        if inst_i:
+            # inside the fragment of core_refines_spec: Core.run with the theorem's oracle (CoreSpec.oracleOf) agreed too
+            ninst += 1
+            b = "ok " + b[4:]
         ca, cb = C.canon(a), C.canon(b)
-        ctx.case(nontrivial_key=line if ca[0] == "ok" and len(ca[1]) >= 3 else None, cls="core:<=5ev" if ca[0] == "ok" and len(ca[1]) <= 5 else "core:>5ev",
+        ctx.case(nontrivial_key=line if ca[0] == "ok" and len(ca[1]) >= 3 else None, cls=("core-inst:" if inst_i else "core:") + ("<=5ev" if ca[0] == "ok" and len(ca[1]) <= 5 else ">5ev"),
                  sample=None)
         if ca != cb or ca[0] != "ok":
             badc.append({"request": line[:3000], "impl": (a or "")[:300], "model": (b or "")[:300]})
     ctx.oblige("correspondence: real engine = Core.run (iterative engine model with oracle from Spec.eval) = Spec.transform "
                "on every generated stylesheet of the Core fragment", "correspondence", not badc, str(badc[:1])[:1800])
     ctx.extra["core_cases"] = len(cl)
+    ctx.extra["core_cases_with_instantiated_oracle"] = ninst
+    ctx.oblige("the fragment of core_refines_spec is exercised: some generated stylesheets are inside it and were run with CoreSpec.oracleOf",
+               "correspondence", ninst >= 20, "only %d" % ninst)
